@@ -1,3 +1,5 @@
 module mc
 
 go 1.21.4
+
+require github.com/sirupsen/logrus v1.9.0
